@@ -81,6 +81,15 @@ func (m *Mon) updateLedgers(sc *StepCtx) {
 			} else {
 				le.Status = "refunded-bad"
 			}
+			// what counts is what the module's handler answered, not what was stored of it
+			if n := len(sc.Res.ModSvc); n > 0 {
+				out := sc.Res.ModSvc[n-1][1]
+				if len(out) == 0 || outputWellFormed(out) {
+					le.Status = "paid"
+				} else {
+					le.Status = "refunded-bad"
+				}
+			}
 		}
 	}
 	for id := range post.ActiveID {
